@@ -236,6 +236,14 @@ func H13_client_exchange() {
 	ops := []string{"AddHardCert", "ListSlots", "ReadSlot", "AttestSlot", "Wait", "Forward"}
 	op := ops[vChoose(len(ops), "operation")]
 	reply := []byte("\x00\x00\x00\x07SUCCESS")
+	// the reply may also never come (the connection ends after the request, or
+	// in the middle of the reply): the operation fails and releases its lock
+	switch vChoose(3, "reply") {
+	case 1:
+		reply = nil
+	case 2:
+		reply = reply[:6]
+	}
 	conn := &m13LockedConn{m20ClientConn{in: reply}}
 	cl := ygNewClient(conn)
 	vWatchAll(cl, "client") // its mutex is "client.<field>"
